@@ -110,6 +110,27 @@ pub(crate) fn assert_buffer_inv(b: &Buffer) {
     }
 }
 
+/// B-new: Buffer::new for ANY scrollback limit on a tiny screen: returns normally (no capacity /
+/// arithmetic overflow), rows blank lines, hard == soft + soft/10 (saturating), nothing pending
+pub(crate) fn t_buffer_new_any_limit() {
+    let limit = any_usize();
+    let b = Buffer::new(1, 1, Some(limit), None);
+    assert!(b.lines.len() == 1 && b.lines[0].cells.len() == 1 && !b.trim_needed, "[C01][C02] a fresh buffer holds exactly the visible rows");
+    match &b.scrollback_limit {
+        Some(l) => {
+            assert!(l.soft == limit && l.hard >= l.soft, "[C13] the configured limit is kept, with a slack that never wraps around");
+            if limit <= usize::MAX / 2 {
+                assert!(l.hard == limit + limit / 10, "[C13] the hard limit is the soft limit plus 10%");
+            }
+        }
+        None => assert!(false, "[C13] a configured limit is not dropped"),
+    }
+    kv_cover!(limit > (1usize << 62), "huge limit");
+    kv_cover!(limit == 0, "limit 0");
+    kv_end!();
+    std::mem::forget(b);
+}
+
 /// R-pos: relative_position(logical_position(p)) == p at a fixed width, for any soft-wrap marks
 pub(crate) fn t_rpos(cols: usize, rows: usize, sb: usize) {
     let b = mk_buffer(cols, rows, sb, None, false, Fill::Blank);
